@@ -90,6 +90,20 @@ Theorem C19_mode_roundtrip_exact :
   Forall (wf_param train dflt) m ->
   values dflt (train_mode cast train dflt (serve_mode cast on_cpu serve dflt m)) = values dflt m.
 Proof. exact (@mode_roundtrip_exact). Qed.
+(* clause 2 over ALL tensors the forward pass reads (named_parameters and named_buffers): exact provided every
+   tensor a conversion touches is a state_dict entry; the correspondence checks that on the real model *)
+Theorem C19_mode_roundtrip_all_exact :
+  forall (T : Type) (cast : dtype -> T -> T) (on_cpu : bool) (serve train : dtype) (dflt : dtype * T)
+         (m : list (bool * @pstate T)),
+  Forall (fun t => wf_param train dflt (snd t) /\ (fst t = true \/ dtype_eqb train serve = true)) m ->
+  values_all dflt (train_mode_all cast train dflt (serve_mode_all cast on_cpu serve dflt m)) = values_all dflt m.
+Proof. exact (@mode_roundtrip_all_exact). Qed.
+(* ... and that hypothesis is needed: a tensor outside state_dict() comes back converted twice *)
+Theorem C19_tensor_outside_state_dict_refuted :
+  exists (p : @pstate Z), wf_param F32 (F32, 0) p /\
+    let t' := train_tensor demo_cast F32 (F32, 0) (serve_tensor demo_cast true BF16 (F32, 0) (false, p)) in
+    cell (snd t') (live (snd t')) (F32, 0) <> cell p (live p) (F32, 0).
+Proof. exact tensor_outside_state_dict_refuted. Qed.
 (* when exactly the master copy is the live tensor itself (validated on the implementation by data_ptr) *)
 Theorem C19_master_aliases_live_iff :
   forall (T : Type) (cast : dtype -> T -> T) (on_cpu : bool) (serve train : dtype) (dflt : dtype * T)
